@@ -39,6 +39,9 @@ def _cases(tier):
     for spec in A.graph_specs(3 if tier == "quick" else 4):
         for merge in ("default", "exact"):
             yield {"mode": "graph", "g": spec, "merge": merge}
+    for spec in A.sibling_graph_specs():
+        for merge in ("default",) if tier == "quick" else ("default", "exact", "percent_50"):
+            yield {"mode": "graph", "g": spec, "merge": merge}
     for h in A.histories([["2", a, b] for a in A.TWO_FIELD for b in A.TWO_FIELD], 2 if tier == "quick" else 3):
         yield {"mode": "two", "h": h}
 
